@@ -8,8 +8,8 @@ from vlib import Infra, write_ndjson
 
 # (StaleAfterReload of FzfPreview is not offered by Trace_Preview: the code cannot do it; a session that shows it is rejected)
 KIND_OF_DEV = {"LostCancel": "lost-cancel", "LostKillAtExit": "survives-exit", "ExitBeforeKill": "survives-exit",
-               "StaleAfterShow": "stale-after-show", "StaleRows": "stale-rows-after-loading", "LostOffsetReset": "lost-offset-reset"}
-FINDING_OF_KIND = {"lost-cancel": "F6", "survives-exit": "F6", "stale-after-show": "F18", "stale-rows-after-loading": "F24",
+               "StaleAfterShow": "stale-after-show", "StaleAfterShowKeep": "stale-after-change-preview-window", "StaleRows": "stale-rows-after-loading", "LostOffsetReset": "lost-offset-reset"}
+FINDING_OF_KIND = {"stale-after-change-preview-window": "F30", "lost-cancel": "F6", "survives-exit": "F6", "stale-after-show": "F18", "stale-rows-after-loading": "F24",
                    "lost-offset-reset": "F27"}
 
 
@@ -31,6 +31,19 @@ def random_steps(rng, n, nitems, ngens=0):
                "toggle+@Rs%d", "@S%d+toggle"]
     steps = []
     for _ in range(n):
+        if rng.random() < 0.04:
+            # the second way of hiding: change-preview-window(hidden) keeps the lines; things change while the window is away;
+            # it comes back at the same or at another position (each on its own POST, the next step waits for a display)
+            steps.append({"post": "@Wh"})
+            for _k in range(rng.randint(1, 3)):
+                if rng.random() < 0.6:
+                    steps.append({"sleep": rng.choice([0.003, 0.03, 0.12, 0.3])})
+                steps.append({"post": rng.choice(moves + edits[:6] + sels[:4])})
+            if rng.random() < 0.7:
+                steps.append({"sleep": rng.choice([0.01, 0.08, 0.25])})
+            steps.append({"post": rng.choice(["@Ws", "@Ws", "@W%d" % rng.randrange(len(preview.LAYOUTS))])})
+            steps.append({"until": "pv.display", "soft": True})
+            continue
         r = rng.random()
         reloaded = False
         if r < 0.37:
@@ -61,6 +74,8 @@ def random_steps(rng, n, nitems, ngens=0):
         r = rng.random()
         if reloaded and r < 0.5:
             steps.append({"until": "list.reload", "soft": True, "rel": "post"})      # (pseudo event: the terminal got the list of another input generation)
+        elif r < 0.02:
+            steps.append({"idle": 1.0})                  # nothing for a second: the watcher of a running command sits in its select
         elif r < 0.45:
             pass                                         # back to back
         elif r < 0.75:
@@ -88,7 +103,8 @@ def random_plan(rng, sid, geoms):
     kinds = rng.choice([["endless"], ["instant"], ["endless", "instant", "slow", "mute", "incr", "incrlong", "ticking"],
                         ["endless", "instant", "mute"], ["slow", "incr", "mute", "instant"], ["ticking", "incrlong", "endless"],
                         ["instant", "mute"], ["mute", "endless", "instant"], ["instant", "slow"], ["pipe", "instant", "endless"],
-                        ["late", "instant", "execend", "slow"], ["instant", "incr", "slow"], ["pipe", "execend", "endless", "instant"]])
+                        ["late", "instant", "execend", "slow"], ["instant", "incr", "slow"], ["pipe", "execend", "endless", "instant"],
+                        ["closed", "instant"], ["closed", "slow", "endless", "instant"]])
     nitems = rng.choice([40, 400, 3000])
     leave = rng.choice(["abort", "abort", "accept", "sigterm"])
     # input generations for reload: as many lines as before / fewer (the cursor may be pulled up) / more
@@ -100,9 +116,11 @@ def random_plan(rng, sid, geoms):
         steps += rng.choice([[{"post": "up"}], [{"post": "up"}, {"until": "pv.kill", "soft": True}], [{"post": "up"}, {"until": "pv.pick", "soft": True}],
                              [{"post": "toggle"}, {"sleep": 0.05}], []])
     layout = rng.randrange(len(preview.LAYOUTS))
+    # --preview-window follow (not with commands that never stop printing: the screen may be one result behind)
+    follow = rng.random() < 0.12 and not ({"ticking", "incrlong"} & set(kinds))
     return Plan(sid, rng.choice(sorted(preview.TEMPLATES)), kinds, nitems, steps, observe=observe, leave=leave, label="random",
                 lead=rng.choice([0, 0, 0, 0.35]), talls=talls_for(rng, geoms[layout][3]), layout=layout, wrap=rng.random() < 0.3,
-                suffix=rng.choice(["", "", "-" + "w" * rng.randint(8, 40)]), gens=gens)
+                suffix=rng.choice(["", "", "-" + "w" * rng.randint(8, 40)]), gens=gens, follow=follow)
 
 
 def directed_plans(sid0, reps, geoms, rng):
@@ -186,6 +204,8 @@ def directed_plans(sid0, reps, geoms, rng):
                               leave="accept", label="query-after-change-preview", talls=[3, geoms[0][3] + 1])); sid += 1
         plans += reload_plans(sid, r, geoms)
         sid += 20
+        plans += window_plans(sid, r, geoms)
+        sid += 20
         # no deviation expected: leave while a never-ending command runs and its watcher is in the select
         plans.append(Plan(sid, "PC", ["ticking"], 40, [{"until": "pv.display", "n0": 0}], observe=True, leave=["sigterm", "accept", "abort"][r % 3],
                           label="exit-while-running", talls=[2])); sid += 1
@@ -243,6 +263,55 @@ def reload_plans(sid0, r, geoms):
     return plans
 
 
+def window_plans(sid0, r, geoms):
+    """(A) change-preview-window(hidden) - the way of hiding that KEEPS the lines - then movements / query edits / toggles, then
+    the window comes back at the same or at another position: the preview must be restarted for the line under the cursor;
+    (B) --preview-window follow: tall / short / tall outputs, every row compared as always (each plan ENDS in the state of
+    interest: the rows are observed at the end); (C) commands of kind `closed` (print, close stdout and stderr, go on for
+    ever): superseded long after their start (`idle`: the watcher sits in its select) they must be gone and the new command
+    must run; the same at the end of the session."""
+    nl = len(preview.LAYOUTS)
+    first = {"until": "pv.display", "n0": 0}
+    shown = {"until": "pv.display", "soft": True}
+    plans = []
+
+    def add(tag, kinds, steps, label, lay, talls=None, **kw):
+        h = geoms[lay % nl][3]
+        plans.append(Plan(sid0 + len(plans), tag, kinds, 40, steps, label=label, layout=lay % nl, talls=talls or [h + 2, 2, h, 1], **kw))
+    other = "@W%d" % ((r + 3) % nl)
+    # (A)
+    add("PB", ["instant"], [first, {"post": "@Wh"}, {"sleep": 0.2}, {"post": "up+up"}, {"sleep": 0.2}, {"post": "@Ws"}], "cpw-hide-move-show", r)
+    add("PD", ["instant"], [first, {"post": "@Wh"}, {"post": "up"}, {"post": "up"}, {"post": "up"}, {"sleep": 0.3}, {"post": other}],
+        "cpw-hide-move-show-elsewhere", r + 1)
+    add("PA", ["instant"], [first, {"post": "@Wh"}, {"sleep": 0.1}, {"post": "put(b)"}, {"sleep": 0.3}, {"post": "@Ws"}], "cpw-hide-edit-show", r + 2)
+    add("PC", ["instant", "slow"], [first, {"post": "@Wh"}, {"sleep": 0.1}, {"post": "toggle"}, {"sleep": 0.2}, {"post": "@Ws"}, shown,
+                                    {"post": "@Wh"}, {"post": "up+up+up"}, {"sleep": 0.15}, {"post": other}], "cpw-hide-toggle-show-twice", r + 3)
+    add("PB", ["endless"], [first, {"post": "@Wh"}, {"sleep": 0.7}, {"post": "up"}, {"sleep": 0.2}, {"post": "@Ws"}], "cpw-hide-while-running", r + 4,
+        leave=["abort", "accept", "sigterm"][r % 3])
+    add("PB", ["instant"], [first, {"post": "@Wh"}, {"sleep": 0.2}, {"post": "@Ws"}], "cpw-hide-show-same-line", r + 5)
+    if r == 0:          # F30 (repaired in /repo, 57de50f): show-again and move back in one chain
+        # GENUINE DEFECT (F30, deviation StaleAfterShowKeep): move away, show and move back in one chain.  Not part of the registered
+        # run until the integrator has decided (fix or known_findings.json): it fails on the unchanged tree
+        add("PB", ["instant"], [first, {"post": "@Wh"}, {"sleep": 0.3}, {"post": "up+@Ws+down"}], "cpw-show-and-move-back", r)
+    # (B)
+    for k, lay in enumerate((r, r + 3)):
+        h = geoms[lay % nl][3]
+        talls = [2 * h + 9, 2, h + 5, 1, h]
+        add("PB", ["instant"], [first, {"post": "up"}], "follow-tall-short", lay, talls=talls, follow=True)
+        add("PD", ["instant", "slow"], [first, {"post": "up"}, shown, {"post": "up"}], "follow-tall-short-tall", lay, talls=talls, follow=True, wrap=(k == 1))
+        add("PB", ["instant"], [first, {"post": "up"}, shown, {"post": "up"}, shown, {"post": "up"}], "follow-tall-short-tall-short", lay + 1, talls=talls, follow=True)
+    h = geoms[(r + 2) % nl][3]
+    add("PA", ["incr", "instant"], [first, {"post": "up"}, shown, {"post": "down"}], "follow-growing", r + 2, talls=[h - 1, 3 * h], follow=True)
+    add("PB", ["instant"], [first, {"post": "preview-up"}, {"post": "preview-up"}, {"post": "up"}, shown, {"post": "up"}], "follow-scrolled-away", r + 2,
+        talls=[h + 6, 3, 2 * h], follow=True)
+    # (C)
+    add("PB", ["closed"], [first, {"idle": 1.0}, {"post": "up"}], "closed-output-superseded", r, talls=[2, 3])
+    add("PA", ["closed", "instant"], [first, {"idle": 1.0}, {"post": "up"}, shown, {"post": "up"}, shown, {"idle": 1.0}, {"post": "put(b)"}],
+        "closed-output-superseded", r + 1, talls=[h, 1, 3])
+    add("PD", ["closed"], [first, {"idle": 1.0}], "closed-output-exit", r + 2, talls=[2], leave=["sigterm", "accept", "abort"][r % 3])
+    return plans
+
+
 # ------------------------------------------------------------------ judging
 def validate(ctx, events, label):
     tpath = os.path.join(ctx.work, "pvtrace-%s.ndjson" % label)
@@ -294,6 +363,10 @@ def judge_sessions(ctx, results, label):
                             sid, plan.label, "+".join(mine), FINDING_OF_KIND[kind])
                         if kind == "survives-exit":
                             what += "preview process group %s still alive after fzf exited (%s)" % (s_evs[-1]["survivors"], s_evs[-1]["how"])
+                        elif kind == "stale-after-change-preview-window":
+                            what += ("at quiescence the cursor is on item %s but the window shows %s: the request announced by change-preview-window "
+                                     "(back from hidden; t.version is not bumped there) was served and the render loop, which finds the focus it "
+                                     "recorded while the window was hidden, announced nothing after it" % (q[-1]["cur"], q[-1]["rows"][:3]) if q else "stale preview")
                         elif kind == "stale-after-show":
                             what += ("at quiescence the cursor is on item %s but the window shows %s: the request announced by toggle-preview "
                                      "was served and the render loop announced nothing after it" % (q[-1]["cur"], q[-1]["rows"][:3]) if q else "stale preview")
@@ -334,7 +407,7 @@ def judge_sessions(ctx, results, label):
 
 
 DEV_CFGS = (("MC_Preview_dev_reload.cfg", "ConvergenceStaleAfterReload"), ("MC_Preview_dev.cfg", "ConvergenceLostCancel"), ("MC_Preview_dev_exit.cfg", "ExitCleanLostKill"),
-            ("MC_Preview_dev_show.cfg", "ConvergenceStaleAfterShow"), ("MC_Preview_dev_rows.cfg", "ConvergenceStaleRows"),
+            ("MC_Preview_dev_show.cfg", "ConvergenceStaleAfterShow"), ("MC_Preview_dev_showkeep.cfg", "ConvergenceStaleAfterShowKeep"), ("MC_Preview_dev_rows.cfg", "ConvergenceStaleRows"),
             ("MC_Preview_dev_offset.cfg", "ConvergenceLostOffsetReset"))
 
 
@@ -344,7 +417,9 @@ def model_checking(ctx):
     equal to and taller than the window with scrolling, re-wrapping and "Loading .." (MC_Preview_rows*.cfg); then the
     deviation configs, whose counterexamples are kept.  The TLC runs go on side by side (and beside the sessions)."""
     jobs = [("MC_Preview_cov.cfg", dict(workers=2, coverage=True, timeout=1500)),           # every action taken (1 user action)
-            ("MC_Preview_quick.cfg", dict(workers=4, timeout=1500)),
+            ("MC_Preview_cov2.cfg", dict(workers=2, coverage=True, timeout=1500)),          # 2 user actions, small: change-preview-window hide + show
+            ("MC_Preview_quick.cfg", dict(workers=4, timeout=1500)),                        # incl. commands that close their output and go on
+            ("MC_Preview_follow_quick.cfg", dict(workers=ctx.pick(4, 3), timeout=1500)),    # --preview-window follow, rows
             ("MC_Preview_rows_quick.cfg", dict(workers=ctx.pick(6, 4), timeout=1500))]
     if not ctx.quick:
         jobs += [("MC_Preview.cfg", dict(workers=6, timeout=5400)),            # 3 user actions (incl. reload), one-line outputs, liveness: 8.9 M states
@@ -365,10 +440,14 @@ def model_checking(ctx):
                 ctx.cov["action_coverage"][res.label] = res.action_cov
         if not ctx.cov["action_coverage"]:
             raise Infra("no action coverage reported")
+        # every action taken in one of the coverage runs (1 user action with everything on; 2 user actions on a small configuration)
+        taken = {}
         for label, res in ctx.cov["action_coverage"].items():
-            zero = [a for a, n in res.items() if n == 0 and a.split(".")[1] not in ("Init",)]
-            if zero:
-                raise Infra("actions never taken in %s: %s" % (label, zero))
+            for a, n in res.items():
+                taken[a] = taken.get(a, 0) + n
+        zero = [a for a, n in taken.items() if n == 0 and a.split(".")[1] not in ("Init",)]
+        if zero:
+            raise Infra("actions never taken in %s: %s" % (sorted(ctx.cov["action_coverage"]), zero))
         for cfg, inv, fut in devs:
             res = fut.result()
             if res.code != 12 or not any(inv in e for e in res.errors):
@@ -403,6 +482,8 @@ def run(ctx):
     ctx.cov["window_geometry"] = {lay: {"x": g[0], "y": g[1], "W": g[2], "H": g[3]} for lay, g in zip(preview.LAYOUTS, geoms)}
     plans = directed_plans(1000, ctx.pick(2, 8), geoms, rng)
     plans += [random_plan(rng, sid, geoms) for sid in range(ctx.pick(30, 500))]
+    if os.environ.get("VERIF_C20_ONLY"):         # development aid: only the scenarios whose label matches
+        plans = [p for p in plans if re.search(os.environ["VERIF_C20_ONLY"], p.label)]
     for p in plans:                      # template tags -> commands (the driver knows the commands it builds)
         for st in p.steps:
             if "post" in st and st["post"].startswith("change-preview:"):
@@ -456,6 +537,12 @@ def run(ctx):
                           "quiescent_after_reload_with_query": sum(1 for sid in results for i, e in enumerate(results[sid][1])
                                                                    if e["ev"] == "quiet" and e["q"] and any(x["ev"] == "reload" for x in results[sid][1][:i])),
                           "reload_requests_not_served": sum(1 for e in allev if e["ev"] == "quiet" and e.get("reload") == "lost")}
+    ctx.cov["change_preview_window"] = {"hidden": sum(1 for e in allev if e["ev"] == "cpw" and e["hidden"]),
+                                        "shown_again": sum(1 for e in allev if e["ev"] == "cpw" and not e["hidden"])}
+    ctx.cov["follow_sessions"] = sum(1 for sid in results if results[sid][0].follow)
+    ctx.cov["idle_points"] = kinds.get("idle", 0)
+    ctx.cov["closed_output_commands_started"] = sum(1 for sid in results for e in results[sid][1] if e["ev"] == "pick" and e["item"] >= 0
+                                                    and preview.kind_of(results[sid][0].kinds, e["item"]) == "closed")
     ctx.cov["change_preview_posts"] = sum(1 for sid in results for st in results[sid][0].steps if st.get("post", "").startswith("change-preview:"))
     ctx.cov["exits"] = {}
     for e in allev:
@@ -470,7 +557,7 @@ def run(ctx):
     ctx.cov["rule"] = ("tmux-driven sessions of the real binary with preview commands that log their own invocation, hold a session lock and "
                        "print multi-line outputs naming the item on every line (shorter than / equal to / taller than the window, by item "
                        "index; instant / slow / late / incremental / never-ending incl. command lists and pipelines whose long-running part "
-                       "is a child of the shell, by item index); preview window down / up / left / right, with and without border, wrap on / "
+                       "is a child of the shell, and commands that close stdout / stderr and go on for ever, by item index); preview window down / up / left / right, with and without border, wrap on / "
                        "off; seeded histories of movements, query edits, toggles, toggle-preview, refresh-preview, change-preview, preview "
                        "scrolling, toggle-preview-wrap and reload / reload-sync (commands that print other lines at the same positions: as "
                        "many, fewer, more; instant, after a pause, in two parts) POSTed back to back, after seeded pauses, or as soon as a previewer event (pick / "
@@ -490,5 +577,10 @@ def run(ctx):
                         "reload: the generation on display is read from the hook trace (coord.restart names the command, the first term.list with "
                         "another major revision is the moment Terminal.UpdateList replaced the list); a reload request the coordinator never "
                         "served (overwritten in the event box) is recorded as it is, not judged (C08's subject)",
-                        "no resize / change-preview-window during a session; --preview-window follow, header lines (~N) and scroll specs (+N) not used"]
+                        "no resize during a session; change-preview-window only as (hidden) and, from there, back to one of the 8 layouts "
+                        "(never mixed with toggle-preview while hidden; no change of a visible window); --preview-window follow not with "
+                        "commands that never stop printing; header lines (~N) and scroll specs (+N) not used",
+                        "timing assumption behind `idle` (Trace_Preview.TIdle): a watcher goroutine reaches its select within 1 s of the "
+                        "command's start when the driver POSTs nothing and no previewer event is logged meanwhile - only then is a dropped "
+                        "cancel / kill denied the LostCancel / LostKillAtExit reading (finding F6)"]
     return "model_checking"
